@@ -2,9 +2,12 @@
    Statements only; proofs in TypingSound.v.
 
    SCOPE (be precise): `tc_prog` is the MODEL checker of Typing.v for the
-   first-order core (Int/Bool/String/List<Int> literals, variables, let,
-   assignment, += / -=, operators, if / if-else, while, blocks, println,
-   string_repr, calls of fully annotated top-level functions) and `run` is the
+   first-order core (Int/Bool/String/List<Int> literals, Option<T> values with
+   Some/None, variables, let, assignment, += / -=, operators, if / if-else,
+   `match` on an Option with exactly the arms Some(x) and None, while,
+   `for x in <List<Int>>`, blocks, pairs `(a, b)` with the destructuring
+   `let (x, y) = e`, println, string_repr, early `return e`,
+   calls of fully annotated top-level functions) and `run` is the
    MODEL big-step semantics of that fragment, in which every type-related
    runtime error class of the property is the outcome TypeError.  The theorem
    says nothing about src/checks/type_checker.rs directly; the tie is the
@@ -22,9 +25,9 @@ Print Assumptions tc_sound_core.
 (* the two halves behind it, for every expression: progress + preservation in
    big-step form (`good`: never TypeErr; a result has the checked type and the
    environment still matches the typing context) *)
-Theorem tc_progress_preservation : forall F, fenv_ok F -> forall k n G r e t,
-  tc n F G e = Some t -> env_ok G r -> good t G (ev k F r e).
-Proof. exact (fun F H k n => ev_sound F H k n). Qed.
+Theorem tc_progress_preservation : forall F, fenv_ok F -> forall k n rt G r e t,
+  tc n F rt G e = Some t -> env_ok G r -> good rt t G (ev k F r e).
+Proof. exact (fun F H k n rt => ev_sound F H k n rt). Qed.
 Print Assumptions tc_progress_preservation.
 
 (* the hypothesis is satisfiable by a program with a call, a loop and output *)
@@ -36,3 +39,43 @@ Print Assumptions tc_accepts_example.
 Example tc_rejects_example : tc_prog ex_bad = false /\ run 100 ex_bad = TypeError.
 Proof. exact ex_bad_rejected. Qed.
 Print Assumptions tc_rejects_example.
+
+(* ---- the widened fragment (Option / match / for / return / pairs) ---------- *)
+(* tc_sound_core above is already the theorem for the widened `tc_prog` / `run`;
+   the same statement under the name of the wider fragment: *)
+Theorem tc_sound_core_option_match_for_return :
+  forall p, tc_prog p = true -> forall fuel, run fuel p <> TypeError.
+Proof. exact tc_sound. Qed.
+Print Assumptions tc_sound_core_option_match_for_return.
+
+(* subsumption used at calls, assignments, returns, function results and branch joins *)
+Theorem subtyping_sound : forall v a b, has_type v a = true -> sub a b = true -> has_type v b = true.
+Proof. exact sub_sound. Qed.
+Print Assumptions subtyping_sound.
+
+(* non-vacuity: a program with a for loop, an early return, Option values and two
+   matches is accepted and runs to a value; the early return yields Some(5) *)
+Example tc_accepts_match_for_return :
+  tc_prog ex_wide = true /\ run 200 ex_wide = Finished (VInt 0).
+Proof. exact ex_wide_accepted. Qed.
+Print Assumptions tc_accepts_match_for_return.
+
+Example early_return_value :
+  run 200 {| pfuns := [(1%N, ex_first_big)]; pmain := [TmCall 1%N [TmList [TmInt 1; TmInt 5; TmInt 9]; TmInt 3]] |}
+  = Finished (VSome (VInt 5)).
+Proof. exact ex_wide_return. Qed.
+Print Assumptions early_return_value.
+
+(* a non-exhaustive match is a type-related runtime error of the model semantics, and tc rejects it *)
+Example tc_rejects_nonexhaustive_match : tc_prog ex_nonexh = false /\ run 100 ex_nonexh = TypeError.
+Proof. exact ex_nonexh_rejected. Qed.
+Print Assumptions tc_rejects_nonexhaustive_match.
+
+(* pairs and destructuring let: accepted and runs; destructuring a non-pair is rejected and fails *)
+Example tc_accepts_pairs : tc_prog ex_pairs = true /\ run 100 ex_pairs = Finished (VInt 4).
+Proof. exact ex_pairs_accepted. Qed.
+Print Assumptions tc_accepts_pairs.
+
+Example tc_rejects_bad_destructuring : tc_prog ex_badpair = false /\ run 100 ex_badpair = TypeError.
+Proof. exact ex_badpair_rejected. Qed.
+Print Assumptions tc_rejects_bad_destructuring.
